@@ -290,7 +290,51 @@ async def F18():
     return (got != (1, 2), f"f(self=1, x=2) -> {got}")
 
 
-ALL = [F1, F2, F3, F4, F5, F6, F7, F8, F9, F10, F11, F12, F13, F14, F15, F16, F17, F18]
+async def F16C06():
+    """F16 seen from C06: a source that fails at the request the stdlib's batched makes after a short final batch"""
+    import itertools
+
+    class Fails:
+        def __init__(self):
+            self.n = self.ends = 0
+
+        def __iter__(self):
+            return self
+
+        def __aiter__(self):
+            return self
+
+        def __next__(self):
+            self.n += 1
+            if self.n == 1:
+                return "x0"
+            self.ends += 1
+            if self.ends == 2:
+                raise RuntimeError("second end-of-source request")
+            raise StopIteration
+
+        async def __anext__(self):
+            try:
+                return self.__next__()
+            except StopIteration:
+                raise StopAsyncIteration from None
+
+    if not hasattr(itertools, "batched"):
+        return False, "itertools.batched not available"
+    try:
+        list(itertools.batched(Fails(), 2))
+        ref = "ends"
+    except RuntimeError:
+        ref = "raises"
+    try:
+        [b async for b in a.batched(Fails(), 2)]
+        got = "ends"
+    except RuntimeError:
+        got = "raises"
+    return (got != ref, f"batched(<1 item, failing at its second end-of-source request>, 2): itertools {ref}, asyncstdlib {got}")
+
+
+ALL = [F1, F2, F3, F4, F5, F6, F7, F8, F9, F10, F11, F12, F13, F14, F15, F16, F16C06, F17, F18]
 
 
 def main():
